@@ -1,7 +1,17 @@
 //! C34 Timer interrupts follow the configured interval.
 use super::*;
 use crate::json::Json;
-use lc3_ensemble::sim::device::{ExternalDevice, TimerDevice};
+use lc3_ensemble::sim::device::{ExternalDevice, Interrupt, InterruptFromFn, TimerDevice};
+use std::sync::{Arc, Mutex};
+
+/// A timer wrapped so that every poll and its answer are recorded (the monitor's event log).
+struct Probe { inner: TimerDevice, log: Arc<Mutex<Vec<bool>>> }
+impl ExternalDevice for Probe {
+    fn io_read(&mut self, a: u16, e: bool) -> Option<u16> { self.inner.io_read(a, e) }
+    fn io_write(&mut self, a: u16, d: u16) -> bool { self.inner.io_write(a, d) }
+    fn io_reset(&mut self) { self.inner.io_reset() }
+    fn poll_interrupt(&mut self) -> Option<Interrupt> { let r = self.inner.poll_interrupt(); self.log.lock().unwrap().push(r.is_some()); r }
+}
 use lc3_ensemble::sim::mem::{MachineInitStrategy, Word};
 use lc3_ensemble::sim::{SimFlags, Simulator};
 
@@ -11,7 +21,7 @@ pub fn prop() -> Prop {
         rule: "Phase 0: TimerDevices with exact counts n in 1..=1000 and ranges a..=b / a..b (1 <= a), random seeds, vectors and priorities are polled directly 2000-10000 times with random enable/disable toggles, io_reset and reset_remaining calls. Monitor over the poll history: \
                (i) the number of polls strictly between two consecutive interrupts (with no toggle/reset in between) lies in the range (= n for an exact count); (ii) after enabling, io_reset or reset_remaining the first interrupt comes within max+1 enabled polls; \
                (iii) no interrupt while disabled; (iv) two timers with the same seed and operation sequence produce identical fire sequences, vector and priority as configured (priority clamped to 7). \
-               Phase 1: the same timer inside a Simulator running an endless loop, one poll per step, interrupt entries detected from the machine state (instructions_run unchanged, frame depth +1, PC = handler); the gaps between entries, measured in steps outside the handler plus one, must satisfy (i). \
+               Phase 1: the same timer wrapped in a recording device inside a Simulator running an endless loop, with (in half of the cases) an earlier-registered device that raises external interrupts: the timer must be polled exactly once per step (also on steps aborted by an external interrupt), and the recorded poll/fire log must satisfy (i) and (ii); interrupt entries are counted from the machine state. \
                Ranges containing 0 are outside the domain. Non-trivial = timer that fired at least 3 times; distinct = (seed, range, operations).",
         assumptions: &["a 'poll' is one call of poll_interrupt on an enabled timer", "ranges containing 0 are out of domain"],
         run, guard,
@@ -77,28 +87,30 @@ fn run(ctx: &mut Ctx) {
         // endless user loop at x3000; handler = single RTI at x1000
         for (a, w) in [(0x3000u16, 0x1021u16), (0x3001, 0x0FFE), (0x1000, 0x8000)] { sim.mem[a] = Word::new_init(w); }
         sim.mem[0x100 + vect as u16] = Word::new_init(0x1000);
+        // an earlier-registered device that sometimes raises an external (host-side) interrupt: the step is aborted with
+        // Err(Interrupt), but every device must still have been polled exactly once in that step
+        let ext_rate = *rng.pick(&[0u64, 0, 7, 23]);
+        if ext_rate > 0 { let mut r2 = crate::rng::Rng::new(seed ^ 0x55); let _ = sim.device_handler.add_device(InterruptFromFn::new(move || if r2.chance(1, ext_rate) { Some(Interrupt::external(std::fmt::Error)) } else { None }), &[]); }
         let mut t = TimerDevice::new(Some(seed), lo..=hi, vect, prio); t.enabled = true;
-        if sim.device_handler.add_device(t, &[]).is_err() { return; }
+        let log: Arc<Mutex<Vec<bool>>> = Arc::new(Mutex::new(vec![]));
+        if sim.device_handler.add_device(Probe { inner: t, log: log.clone() }, &[]).is_err() { return; }
         ctx.eval();
         let case = || Json::obj().set("seed", seed).set("range", format!("{lo}..={hi}")).set("priority", prio as u64);
-        let mut last_entry: Option<u64> = None; let mut entries = 0u64;
+        let mut entries = 0u64; let mut ext = 0u64;
         for step in 0..3000u64 {
             let (i0, d0) = (sim.instructions_run, sim.frame_stack.len());
-            if sim.step_in().is_err() { ctx.count("sim-error"); return; }
-            let entry = sim.instructions_run == i0 && sim.frame_stack.len() == d0 + 1 && sim.pc == 0x1000;
-            if entry {
-                entries += 1;
-                if let Some(l) = last_entry {
-                    // polls strictly between the two fires = steps strictly between the two entry steps
-                    let g = step - l - 1;
-                    // the RTI step inside the handler is polled at priority p: a fire there would be gated and lost, so a gap may also be a sum of gaps;
-                    // only check the lower bound and the exact case when the handler (1 step) cannot hide a fire: gap >= lo always holds
-                    if g < lo as u64 { ctx.violation("sim:gap-below-range", format!("{g} steps between timer entries, range {lo}..={hi}"), case()); return; }
-                    if g <= hi as u64 { ctx.count("sim.gaps-in-range"); } else { ctx.count("sim.gaps-with-gated-fire"); }
-                } else if step > hi as u64 { ctx.violation("sim:first-interrupt-too-late", format!("first timer entry at step {step}, maximum {hi}"), case()); return; }
-                last_entry = Some(step);
-            }
+            let r = sim.step_in();
+            match &r { Err(lc3_ensemble::sim::SimErr::Interrupt(_)) => { ext += 1; } Err(_) => { ctx.count("sim-error"); return; } Ok(()) => {} }
+            let polls = log.lock().unwrap().len() as u64;
+            if polls != step + 1 { ctx.violation("sim:timer-not-polled-once-per-step", format!("after {} steps the timer has been polled {polls} times (last step ended with {:?})", step + 1, r.as_ref().map_err(|e| crate::simutil::err_kind(e))), case().set("external_interrupt_rate", ext_rate)); return; }
+            if r.is_ok() && sim.instructions_run == i0 && sim.frame_stack.len() == d0 + 1 && sim.pc == 0x1000 { entries += 1; }
         }
+        // the interval specification over the recorded poll log
+        let l = log.lock().unwrap().clone();
+        let fires: Vec<usize> = l.iter().enumerate().filter(|(_, f)| **f).map(|(i, _)| i).collect();
+        if let Some(f0) = fires.first() { if *f0 as u64 + 1 > hi as u64 { ctx.violation("sim:first-interrupt-too-late", format!("first timer interrupt at poll {}, maximum {hi}", f0 + 1), case()); return; } }
+        for w in fires.windows(2) { let g = (w[1] - w[0] - 1) as u64; if g < lo as u64 || g > hi as u64 { ctx.violation(if g < lo as u64 { "sim:gap-below-range" } else { "sim:gap-above-range" }, format!("{g} polls between consecutive timer interrupts inside the simulator, range {lo}..={hi}"), case()); return; } ctx.count("sim.gaps-in-range"); }
+        if ext > 0 { ctx.count("sim.timers-with-external-interrupt-source"); ctx.count_n("sim.steps-aborted-by-external-interrupt", ext); }
         if entries >= 3 { ctx.nontrivial(crate::rng::hash64(&[seed, lo as u64, hi as u64, 7])); ctx.count("sim.timers"); }
     });
 }
@@ -106,7 +118,7 @@ fn rng_free_bool(seed: u64) -> bool { seed & 1 == 1 }
 
 fn guard(m: &Merged, _t: Tier) -> Vec<String> {
     let mut out = vec![];
-    for k in ["timers.exact", "timers.inclusive-range", "timers.exclusive-range", "gaps.at-min", "gaps.at-max", "gaps.inside", "first-fire-after-arm", "sim.timers", "sim.gaps-in-range"] { need(m, &mut out, k, 20); }
+    for k in ["timers.exact", "timers.inclusive-range", "timers.exclusive-range", "gaps.at-min", "gaps.at-max", "gaps.inside", "first-fire-after-arm", "sim.timers", "sim.gaps-in-range", "sim.timers-with-external-interrupt-source"] { need(m, &mut out, k, 20); }
     need(m, &mut out, "fires", 10_000);
     out
 }
